@@ -230,8 +230,8 @@ def run_kernel(ctx, mm, sem, parser, kernel, ports, uops_of, info, inc, trace=Tr
 
 def run(ctx):
     ctx.assumptions = TRUSTED
-    ctx.prove(["Consts"], ["OsacaVerif.Props.C01"])
-    ctx.thorough_recheck(["OsacaVerif.Props.C01"])
+    ctx.prove(["Consts"], ["OsacaVerif.Props.C01", "OsacaVerif.Props.C01Oracle"])
+    ctx.thorough_recheck(["OsacaVerif.Props.C01", "OsacaVerif.Props.C01Oracle"])
     ctx.env = core.Env("C01", archs=corpus.archs_of("x86", ctx.tier == "quick") + corpus.archs_of("aarch64", ctx.tier == "quick"))
     ctx.env.activate()
     import warnings
@@ -315,6 +315,45 @@ def run(ctx):
             ctx.sample({"kernel": lines, "ports": m["ports"], "forms": m["forms"][:3], "totals": sums})
         if len(ctx.violations) > 20:
             break
+
+    # ------------------------------------------------------------------ alternative port assignments (dict-valued entries)
+    # the optimiser explores the alternatives and keeps the best kernel; afterwards every line's reported micro-ops
+    # (`port_uops`, the chosen alternative) and its pressure must still belong together
+    n_alt = (60 if quick else 600) * boost
+    for t in range(n_alt):
+        m = S.random_model(rng, n_forms=rng.randint(2, 4), max_uops=2, alternatives=True, zero_forms=False)
+        if not any(isinstance(f["pp"], dict) for f in m["forms"]):
+            continue
+        path = S.write_model(m, mdir, "alt_%d" % t)
+        mm = MachineModel(path_to_yaml=path)
+        sem = ArchSemantics(mm)
+        lines = S.random_kernel(rng, m, rng.randint(2, 5))
+        # an instruction with alternatives first, as in the shipped a64fx smlal case
+        altf = rng.choice([f for f in m["forms"] if isinstance(f["pp"], dict)])
+        lines[rng.choice([0, 0, len(lines) - 1])] = "%s %%rax, %%rbx" % altf["name"]
+        kernel = px.parse_file("\n".join(lines))
+        sem.add_semantics(kernel)
+        info = {"kind": "synthetic", "model_yaml": S.model_yaml(m), "kernel": lines}
+        for state in ("once", "twice"):
+            try:
+                sem.assign_optimal_throughput(kernel)
+            except Exception as e:  # noqa
+                ctx.violation("optimised scheduling with alternatives (%s) raised %s" % (state, type(e).__name__),
+                              dict(info, state=state, exception=type(e).__name__), key=KNOWN_TWICE if state == "twice" else None)
+                break
+
+            def uops_now(li, kernel=kernel, m=m):
+                pu = kernel[li].port_uops
+                if isinstance(pu, dict):
+                    pu = list(pu.values())[0]
+                try:
+                    return S.resolve_uops(m, pu)
+                except Exception:  # noqa
+                    return None
+
+            m_max = max([len(uops_now(i) or []) for i in range(len(kernel))] + [1])
+            check_state(ctx, state, kernel, uops_now, len(m["ports"]), Fraction(inc) / 2 * m_max + Fraction(1, 10**9), info)
+        ctx.count("kernels_alternatives")
 
     # ------------------------------------------------------------------ shipped kernels on shipped models
     ks = corpus.real_kernels()
